@@ -595,6 +595,15 @@ pub fn c17(tier: Tier) -> ! {
             run.fail(None, &e, json!({"string": s}));
         }
     }
+    // (components far longer than any table entry: valid characters only)
+    for s in ["x+0+0+0+0+0+0+0+1/2,y", "+ + + + + + + + + + + + + + + x + 1/2, y", "xxxxxxxxxxxxxxxxxxxxxxxxxxxxxxxx,y", "x,y-1/2-1/2-1/2-1/2-1/2-1/2-1/2-1/2", "(x+1/2+1/3+1/4+1/5+1/6+1/7+1/8+1/9, -y+1/2+1/3+1/4+1/5+1/6+1/7+1/8+1/9)"].iter() {
+        rn += 1;
+        match panic::catch_unwind(|| Transform2::from_operations(s)) {
+            Err(_) => run.fail(None, &format!("panic while parsing {:?}", s), json!({"string": s})),
+            Ok(Ok(_)) => roks += 1,
+            Ok(Err(_)) => rerrs += 1,
+        }
+    }
     let odd = ["é,x", "x,y\u{0}", "x\t,y", "x,y\n", "１,２", "x,y,é", "\u{1F600}", "x,\u{301}y", "9999999999999999999999,1", "1/0,y", "x/0, y/0", "x,y)", "((x,y", "--x,++y", "x y, y x", "1/2/3,x", "*x,/y"];
     for s in odd.iter() {
         rn += 1;
